@@ -270,6 +270,20 @@ def model_profiles(scheme, cfg, tier_, extra_inv=True):
     return out, r, c
 
 
+def boundary_families(tr):
+    """(scheme, configuration, largest N) for which MC_Boundaries looks for layout thresholds (shared by C01 / C02 / C03)"""
+    fams = [("CJJ14.PiPtr", dict(sc.default_config("CJJ14.PiPtr"), param_B=1, param_b=16), 300),
+            ("CJJ14.Pi2Lev", dict(sc.default_config("CJJ14.Pi2Lev"), param_B=4, param_b=4, param_B_prime=4, param_b_prime=4), 80),
+            ("ANSS16.Scheme3", sc.default_config("ANSS16.Scheme3"), 300 if tr == "quick" else 1100),
+            ("CT14.Pi", sc.default_config("CT14.Pi"), 300 if tr == "quick" else 1100),
+            ("DP17.Pi", sc.default_config("DP17.Pi"), 300),
+            ("DP17.Pi", dict(sc.default_config("DP17.Pi"), param_L=2, param_actual_storage_level_ratio=0.5), 300),
+            ("CGKO06.SSE1", dict(sc.default_config("CGKO06.SSE1"), param_s=512, param_dictionary_size=16), 300),
+            ("CJJ14.PiBas", sc.default_config("CJJ14.PiBas"), 300),      # label counter passes 256
+            ("CJJ14.PiPack", dict(sc.default_config("CJJ14.PiPack"), param_B=1), 300)]
+    return fams
+
+
 def model_boundaries(scheme, cfg, maxn=600):
     """Run MC_Boundaries for (scheme, cfg): -> list of profiles on either side of every layout threshold up to maxn."""
     from common import run_tlc, parse_printed, tla_value
